@@ -129,9 +129,11 @@ func (o *oracle) txnMetricsSnapshot() metrics.TxnMetrics {
 
 func (o *oracle) readTs() uint64 {
 	readTs := o.nextTxnTs.Load() - 1
+	utils.VerifYield("orc.readts.after-next")
 	if last := o.txnMark.LastIndex(); last < readTs {
 		readTs = last
 	}
+	utils.VerifYield("orc.readts.after-last")
 	o.readMark.Begin(readTs)
 
 	// Wait for all txns which have no conflicts, have been assigned a commit
@@ -189,6 +191,7 @@ func (o *oracle) newCommitTs(txn *Txn) (uint64, bool) {
 
 	// This is the general case, when user doesn't specify the read and commit ts.
 	ts := o.nextTxnTs.Add(1) - 1
+	utils.VerifYield("orc.committs.after-next")
 
 	utils.AssertTrue(ts >= o.lastCleanupTs)
 	o.txnMark.Begin(ts)
@@ -255,6 +258,7 @@ func (o *oracle) cleanupCommittedTransactions() { // Must be called under o.Lock
 }
 
 func (o *oracle) doneCommit(cts uint64) {
+	utils.VerifYield("orc.donecommit")
 	o.txnMark.Done(cts)
 }
 
